@@ -579,6 +579,15 @@ POSTCONDITION Accepted
 CHECK_DEADLOCK FALSE
 """
 
+SHARED_ARGS_CFG = """SPECIFICATION SSpec
+CONSTANTS
+  Threads = %(threads)s
+  Arg0 <- %(arg0)s
+  RelabelInPlace = %(defect)s
+%(props)s
+CHECK_DEADLOCK FALSE
+"""
+
 MC_THREADS_CFG = """SPECIFICATION TSpec
 CONSTANTS
   Threads = {%(threads)s}
@@ -655,13 +664,19 @@ def threads_stage(run, count, exhaustive_pairs=None):
             cfg = MC_THREADS_CFG % dict(threads=threads, reads=reads, defect="FALSE", cons=cons,
                                         props="INVARIANT ResultIsSequential\nPROPERTY ModelReadOnly")
             mc.run_mc(run, "MC_Threads", cfg, "threads-%s-%d-%s" % (threads.replace(", ", ""), reads, cons), emit=False)
+    # ... and on one shared outcome list object (SharedArgs.tla): no action writes it; every call returns what it returns alone
+    for arg0 in ("MCArg0", "MCArg1"):
+        for threads in q(run, ["{1, 2}"], ["{1, 2}", "{1, 2, 3}"]):
+            mc.run_mc(run, "MC_SharedArgs", SHARED_ARGS_CFG % dict(threads=threads, arg0=arg0, defect="FALSE",
+                                                                   props="PROPERTY ArgsReadOnly\nINVARIANT ResultIsSequential\nINVARIANT AloneIsFine"),
+                      "shared-args-%s-%d" % (arg0, threads.count(",") + 1), emit=False)
     # code level: real threads on a shared instrumented model under chosen schedules
     sess = Session()
     log = []
     drivers.thread_executions(sess, run.sub_rng("threads"), count, log, exhaustive_pairs=exhaustive_pairs)
     if not exhaustive_pairs:
         # pre-emption at every library function call (not only model accesses): every switch point of one call
-        drivers.thread_executions_fine(sess, run.sub_rng("threads-fine"), q(run, 3, 15), log, stride=1)
+        drivers.thread_executions_fine(sess, run.sub_rng("threads-fine"), q(run, 4, 16), log, stride=1)
     validate_thread_log(run, log, "thread-events")
     validate_events(run, sched.regroup(sess.events), {"C14"}, "thread-results")
     run.samples.append({"thread_events_of_one_execution": [(e["th"], e["ev"], e["attr"], e["value"]) for e in log[:60]]})
